@@ -10,6 +10,7 @@ impl<K, V> Default for HashMap<K, V> {
 }
 impl<K: PartialEq, V> HashMap<K, V> {
     pub fn new() -> Self { Self { items: Vec::new() } }
+    pub fn with_capacity(_n: usize) -> Self { Self { items: Vec::new() } }
     fn pos(&self, k: &K) -> Option<usize> {
         let mut i = 0;
         while i < self.items.len() {
@@ -47,6 +48,17 @@ impl<K: PartialEq, V> HashMap<K, V> {
     }
 }
 
+impl<K: serde::Serialize, V: serde::Serialize> serde::Serialize for HashMap<K, V> {
+    fn serialize<S: serde::Serializer>(&self, serializer: S) -> Result<S::Ok, S::Error> {
+        use serde::ser::SerializeMap;
+        let mut m = serializer.serialize_map(Some(self.items.len()))?;
+        for (k, v) in &self.items {
+            m.serialize_entry(k, v)?;
+        }
+        m.end()
+    }
+}
+
 pub struct HashSet<K> {
     items: Vec<K>,
 }
@@ -68,6 +80,20 @@ pub mod hash_map {
     pub enum Entry<'a, K, V> {
         Occupied(OccupiedEntry<'a, K, V>),
         Vacant(VacantEntry<'a, K, V>),
+    }
+    impl<'a, K: PartialEq, V> Entry<'a, K, V> {
+        pub fn or_insert_with<F: FnOnce() -> V>(self, default: F) -> &'a mut V {
+            match self {
+                Entry::Occupied(e) => e.into_mut(),
+                Entry::Vacant(e) => e.insert(default()),
+            }
+        }
+        pub fn or_insert(self, default: V) -> &'a mut V {
+            match self {
+                Entry::Occupied(e) => e.into_mut(),
+                Entry::Vacant(e) => e.insert(default),
+            }
+        }
     }
     pub struct OccupiedEntry<'a, K, V> {
         pub(super) map: &'a mut HashMap<K, V>,
